@@ -116,9 +116,11 @@ class WebSocket:
         if enable_multithread:
             self.lock = threading.Lock()
             self.readlock = threading.Lock()
+            self.closelock = threading.Lock()
         else:
             self.lock = NoLock()
             self.readlock = NoLock()
+            self.closelock = NoLock()
 
     def __iter__(self):
         """
@@ -507,7 +509,7 @@ class WebSocket:
                     return self.cont_frame.extract(frame)
 
             elif frame.opcode == ABNF.OPCODE_CLOSE:
-                if self.connected:
+                if self._claim_close_frame():
                     # reply once; not when our own close frame is already out
                     try:
                         self.send_close()
@@ -578,9 +580,13 @@ class WebSocket:
             return
         if status < 0 or status >= ABNF.LENGTH_16:
             raise ValueError("code is invalid range")
+        if not self._claim_close_frame():
+            # another thread (the automatic reply to the server's close frame)
+            # got there first
+            self.shutdown()
+            return
 
         try:
-            self.connected = False
             sock_timeout = self.sock.gettimeout()
             self.sock.settimeout(timeout)
             start_time = time.time()
@@ -608,6 +614,17 @@ class WebSocket:
             pass
 
         self.shutdown()
+
+    def _claim_close_frame(self) -> bool:
+        """
+        True for the one caller that may write this side's close frame:
+        close() and the automatic reply test and clear `connected` atomically.
+        """
+        with self.closelock:
+            if not self.connected:
+                return False
+            self.connected = False
+            return True
 
     def abort(self):
         """
